@@ -1,3 +1,55 @@
-From MW Require Import Num.
-Theorem placeholder : True. Proof. exact I. Qed.
-Print Assumptions placeholder.
+(*  C07 — fit discards everything learned before.
+   
+    PROVED for the six context-free learning policies, for every reachable state (the two reachable-state
+    invariants keys_ok and clean are proved to hold after every history in C08 / CFClean), every data set:
+     * fit(D) on the used policy object yields exactly (Leibniz equality) the state fit(D) yields on a freshly
+       constructed object with the same configuration and current arm list; for Thompson Sampling up to the
+       stored copy of the last sample, which no operation reads (statistics, trained / warm status, warm-start
+       copies, UCB1's N, Popularity's normalisation flag are all included in the equality);
+     * at the facade: fit on the used bandit and on the fresh bandit are accepted or rejected alike, leave the
+       same fitted flag, generator and cold_arms, and related implementation states.
+    ..._partial: linear and neighbourhood policies are covered by the refit-versus-fresh relation executed on
+    the implementation; LinTS is refuted on the code (finding D8: per-arm generator copies survive fit). *)
+From Coq Require Import List ZArith Bool Arith QArith Qcanon.
+From MW Require Import Num Assoc AssocFacts Rng Par CF CFInv CFClean CFForget CFSpec Matrix Lin Warm WarmInv Nbr NbrFacts NbrIndep Clu Tree Mab FacadeCF FacadeArms NumLaws QcInst.
+Import ListNotations.
+
+Theorem C07_fit_forgets_context_free :
+  forall (R A : Type) (N : Num R) (aeqb : A -> A -> bool) (s : (@cf R A)) (ds : list A) (rs : list R),
+  keys_ok s ->
+  clean N s ->
+  cf_fit N aeqb s ds rs =
+  match c_kind s with
+  | KThompson => set_exp (cf_fit N aeqb (cf_fresh N s) ds rs) (c_exp s)
+  | _ => cf_fit N aeqb (cf_fresh N s) ds rs
+  end.
+Proof. exact @cf_fit_forgets. Qed.
+Print Assumptions C07_fit_forgets_context_free.
+
+Theorem C07_fit_forgets_at_the_facade_partial :
+  forall (R A G : Type) (N : Num R) (aeqb : A -> A -> bool) (RG : RngOps R G),
+  (forall x y : A, aeqb x y = true <-> x = y) ->
+  forall (m : (@mab R A G)) (ds : list A) (rs : list R) (cx : option (@ctxs R)) (orc : (@oracle R A)),
+  is_cf m ->
+  mab_inv N m ->
+  let r := step N aeqb RG m (Fit ds rs cx orc) in
+  let r' := step N aeqb RG (mab_fresh N m) (Fit ds rs cx orc) in
+  snd r = snd r' /\
+  (snd r = ODone ->
+   imp_rel (m_imp (fst r)) (m_imp (fst r')) /\
+   m_fitted (fst r) = m_fitted (fst r') /\
+   m_rng (fst r) = m_rng (fst r') /\ mab_cold_arms aeqb (fst r) = mab_cold_arms aeqb (fst r')).
+Proof. exact @fit_forgets_facade. Qed.
+Print Assumptions C07_fit_forgets_at_the_facade_partial.
+
+Theorem C07_invariants_hold_after_every_history :
+  forall (R A G : Type) (N : Num R) (aeqb : A -> A -> bool) (RG : RngOps R G),
+  (forall x y : A, aeqb x y = true <-> x = y) ->
+  forall (ops : list (@op R A)) (m : (@mab R A G)),
+  rng_lengths_ok RG ->
+  is_cf m ->
+  mab_inv N m -> is_cf (state_after N aeqb RG m ops) /\ mab_inv N (state_after N aeqb RG m ops).
+Proof. exact @run_preserves_inv. Qed.
+Print Assumptions C07_invariants_hold_after_every_history.
+
+
